@@ -24,6 +24,17 @@ NOT_APPLICABLE = {
 
 # id -> (technique, level text, level note, design ref)
 CLAIMS = {
+    'C14': ('allocation-token may-alias analysis with callee summaries (return-escape, write-through-alias with liveness), '
+            'memo-guard key completeness, must-precede rule for Green-function state reads, cache-key coherence',
+            'Static, exhaustive over every path of VacancyMediated.Lij and the data-preparation routines: decides that no '
+            'returned tensor shares storage with a cache entry, attribute or argument; that no in-place write reaches '
+            'shared storage; that rate-dependent Green-function state is read only after SetRates for the current key; '
+            'that hit and miss paths use one key per cache; that every early-return guard of the calculators compares '
+            'every parameter its skipped body reads; and that re-ranging clears the caches. These hold for all call '
+            'histories because they are statements about the code paths; numerical equality is not decided.',
+            'trusts CPython ast; numpy value semantics table (arithmetic/constructors/.copy() fresh; basic slicing, .T, '
+            'reshape views; list/array indices copy); receiver typing of self.GFcalc/self.vkinetic/self.kinetic',
+            'DESIGN.md §4 C14'),
     'C13': ('loader def-use over the class call graph, HDF5 key-set comparison with class-tuple loop expansion, '
             'constructor/loader constant agreement, YAML registration tables, stale-loop-variable def-use lint',
             'Static, exhaustive over the five addhdf5/loadhdf5 pairs, three converter pairs and six YAML registrations: '
